@@ -83,7 +83,8 @@ VARIABLES
   pend,      \* raw server: requests read, not answered
   sbuf,      \* honest server bufio.Writer
   app,       \* requests in the order the application (server) saw them
-  s2c,       \* wire server -> client: items [k, typ, for, part]
+  s2c,       \* wire server -> client (kernel buffers): items [k, typ, for, part]
+  rbuf,      \* the recv routine's bufio.Reader: items read from the socket, not yet decoded
   srvClosed,
   recvpc,    \* recv routine: [pc, r, x, e]
   mtx,       \* cli.mtx: "free" | "recv" (didRecvResponse in progress)
@@ -98,7 +99,7 @@ VARIABLES
   gated,     \* ReqRes whose global callback blocks until released
   h,         \* ghost history
   act
-vars == <<reqs, queue, sent, sendpc, wbuf, c2s, pend, sbuf, app, s2c, srvClosed, recvpc, mtx, done, resp,
+vars == <<reqs, queue, sent, sendpc, wbuf, c2s, pend, sbuf, app, s2c, rbuf, srvClosed, recvpc, mtx, done, resp,
           cbset, cbinv, cbret, err, stopped, stoppc, stopby, quit, connClosed, timerSet, ntimer, nfault,
           ncalls, th, gated, h, act>>
 
@@ -121,7 +122,7 @@ Idle == [pc |-> "idle", kind |-> "-", r |-> 0, f |-> 0, call |-> 0, gate |-> FAL
 Init ==
   /\ reqs = << >> /\ queue = << >> /\ sent = << >> /\ wbuf = << >> /\ c2s = << >>
   /\ sendpc = [pc |-> "sel", r |-> 0, e |-> "-"]
-  /\ pend = << >> /\ sbuf = << >> /\ app = << >> /\ s2c = << >> /\ srvClosed = FALSE
+  /\ pend = << >> /\ sbuf = << >> /\ app = << >> /\ s2c = << >> /\ rbuf = << >> /\ srvClosed = FALSE
   /\ recvpc = [pc |-> "read", r |-> 0, x |-> NoResp, e |-> "-"]
   /\ mtx = "free" /\ done = << >> /\ resp = << >>
   /\ cbset = {} /\ cbinv = {} /\ cbret = {}
@@ -170,13 +171,11 @@ UStop ==
   /\ UNCHANGED <<ucClient, queue, sent, sendpc, c2s, ucSrv, s2c, recvpc, mtx, done, resp, ucCb, err, quit,
                  connClosed, ucCount, th>>
 
-\* OnStop: conn.Close().  Responses already in the bufio.Reader stay readable (any prefix of
-\* what is on the wire), then the read fails; the server sees EOF.
+\* OnStop: conn.Close().  What the bufio.Reader already holds stays readable, what is still in
+\* the kernel is gone: the next read() fails.  The server sees EOF.
 StopClose ==
   /\ stoppc = "close"
-  /\ \E k \in 0..Len(s2c) :
-       /\ \A i \in 1..k : ~s2c[i].part /\ s2c[i].k # "eof"
-       /\ s2c' = SubSeq(s2c, 1, k) \o <<Item("eof")>>
+  /\ s2c' = <<Item("eof")>>
   /\ connClosed' = TRUE /\ c2s' = << >> /\ srvClosed' = TRUE
   /\ stoppc' = "flush"
   /\ act' = A0("StopClose")
@@ -382,10 +381,16 @@ SendQuit ==
   /\ UNCHANGED <<ucClient, queue, sent, c2s, ucSrv, s2c, recvpc, mtx, done, resp, ucCb, ucStop, ucCount, th, h>>
 
 \* ------------------------------------------------------------------ recv routine
+\* types.ReadMessage on the bufio.Reader: decode the next frame from the buffer; when the buffer
+\* is empty one read() takes everything complete that is on the socket
 RecvRead ==
-  /\ recvpc.pc = "read" /\ s2c # << >> /\ ~Head(s2c).part
-  /\ LET x == Head(s2c) IN
-     /\ s2c' = Tail(s2c)
+  /\ recvpc.pc = "read"
+  /\ rbuf # << >> \/ (s2c # << >> /\ ~Head(s2c).part)
+  /\ LET avail == IF s2c # << >> /\ s2c[Len(s2c)].part THEN SubSeq(s2c, 1, Len(s2c) - 1) ELSE s2c
+         buf == IF rbuf # << >> THEN rbuf ELSE avail
+         x == Head(buf) IN
+     /\ rbuf' = Tail(buf)
+     /\ s2c' = IF rbuf # << >> THEN s2c ELSE SubSeq(s2c, Len(avail) + 1, Len(s2c))
      /\ IF x.k \in {"eof", "bad"} THEN recvpc' = [recvpc EXCEPT !.pc = "stop", !.e = "read"] /\ h' = [h EXCEPT !.faultHit = TRUE]
         ELSE IF x.k = "exc" THEN
              /\ h' = [h EXCEPT !.faultHit = TRUE]
@@ -526,20 +531,22 @@ Fault(f) ==
   /\ UNCHANGED <<ucRaw, app>>
 
 \* ------------------------------------------------------------------ next-state relation
-Internal ==
+InternalNoRead ==
   \/ \E t \in Threads : Enq(t) \/ EnqF(t) \/ Drain(t) \/ Chk(t) \/ Fin(t)
   \/ SendDequeue \/ SendTrack \/ SendWrite \/ SendSpill \/ SendQuit
-  \/ RecvRead \/ RecvDid \/ RecvGcb \/ RecvRcb
+  \/ RecvDid \/ RecvGcb \/ RecvRcb
   \/ StopBegin("send") \/ StopBegin("recv") \/ StopClose \/ StopFlush \/ StopQuit
   \/ SrvHandle
+Internal == RecvRead \/ (InternalNoRead /\ UNCHANGED rbuf)
 
-Env ==
+EnvStep ==
   \/ \E t \in Threads, kind \in CallKinds, g \in BOOLEAN : StartCall(t, kind, g)
   \/ \E t \in Threads, r \in DOMAIN reqs : SetCallback(t, r)
   \/ UStop \/ ReleaseGate \/ TimerFire \/ SrvPanic
   \/ SrvGot \/ SrvFinishFrame
   \/ \E p \in BOOLEAN : SrvReply(p)
   \/ \E f \in Faults : Fault(f)
+Env == EnvStep /\ UNCHANGED rbuf
 
 Next ==
   /\ ~h.panicked              \* the process is gone
@@ -598,7 +605,7 @@ HonestProgress == (nfault = 0 /\ ~stopped /\ Server = "honest" /\ ~ENABLED Inter
                     => \A t \in Threads : th[t].pc = "idle"
 ErrorIsTerminal == NoPanic /\ DoneOnce /\ NoStuckCaller /\ FaultStops /\ ErrSticky
 
-View == <<reqs, queue, sent, sendpc, wbuf, c2s, pend, sbuf, app, s2c, srvClosed, recvpc, mtx, done, resp,
+View == <<reqs, queue, sent, sendpc, wbuf, c2s, pend, sbuf, app, s2c, rbuf, srvClosed, recvpc, mtx, done, resp,
           cbset, cbinv, cbret, err, stopped, stoppc, stopby, quit, connClosed, timerSet, ntimer, nfault,
           ncalls, th, gated, h>>
 =============================================================================
